@@ -7,7 +7,7 @@ import (
 	"github.com/formancehq/numscript/zzverif/vm"
 )
 
-var apiFiles = []vm.HarnessFile{hf("", "zz_verif_lib.go"), hf("", "zz_verif_api.go")}
+var apiFiles = []vm.HarnessFile{hf("", "zz_verif_lib.go"), hf("", "zz_verif_api.go"), hf("", "zz_verif_c10.go"), hf("", "zz_verif_c11.go"), hf("", "zz_verif_c12.go")}
 var apiLoad = []string{"", "internal/interpreter"}
 var apiInit = []string{""}
 
@@ -128,6 +128,16 @@ func init() {
 				cases = append(cases, apiCase("C01", "unknown-account-between-debits", []string{sendFixed("USD", "@a", "@b"), mid, sendFixed("USD", "{ @a @world }", "@e")}, ex))
 				cases = append(cases, apiCase("C01", "unknown-account-between-debits", []string{sendAll("USD", "@a", "@b"), mid, sendAll("USD", "@a allowing overdraft up to %K", "@e")}, ex))
 			}
+			// the same account as a source for two assets, with stores that answer exactly what is asked
+			for _, kind := range []string{"exact", "sparse"} {
+				st := map[string][2]string{"_store": {"", kind}}
+				eur := "send [EUR 40] (\n  source = { @a allowing overdraft up to [EUR 50] @world }\n  destination = @d\n)"
+				cases = append(cases, apiCase("C01", "two-assets/"+kind+"-store", []string{eur, sendFixed("USD", "@a", "@e")}, st))
+				cases = append(cases, apiCase("C01", "two-assets/"+kind+"-store", []string{sendFixed("USD", "{ @a @b }", "@e"), eur}, st))
+				cases = append(cases, apiCase("C01", "two-assets/"+kind+"-store", []string{"send [EUR *] (\n  source = @a allowing overdraft up to [EUR 7]\n  destination = @d\n)", sendAll("USD", "{ @a @b allowing overdraft up to %K }", "@e")}, st))
+				cases = append(cases, apiCase("C01", "two-statements/"+kind+"-store", []string{first[0], second[2]}, st))
+				cases = append(cases, apiCase("C01", "two-statements/"+kind+"-store", []string{first[3], second[1]}, st))
+			}
 			// account reached through variables (aliasing)
 			for _, alias := range []string{"a", "b"} {
 				cases = append(cases, apiCase("C01", "aliasing", []string{sendFixed("USD", "{ @a $src }", "@d")}, map[string][2]string{"src": {"account", "acc:" + alias}}))
@@ -151,7 +161,7 @@ func init() {
 	// ------------------------------------------------------------ C02
 	Register(&Check{
 		ID: "C02", Title: "every posting is a real transfer", PanicViolates: false,
-		Files: append(apiFiles, hf("", "zz_verif_c10.go"), hf("", "zz_verif_c11.go"), hf("", "zz_verif_c12.go")), LoadPkgs: apiLoad, InitPkgs: apiInit,
+		Files: apiFiles, LoadPkgs: apiLoad, InitPkgs: apiInit,
 		Cases: func(tier string) []Case {
 			var cases []Case
 			accs := []string{"a", "b"}
